@@ -50,7 +50,9 @@ class PatchList:
 
     def clear(self) -> None:
         """Removes collected patches but leaves settings intact"""
-        self.patches.clear()
+        # type and settings given by modify() live in the Patch objects; keep those
+        for patch in self.patches.values():
+            patch.sides.clear()
 
     @property
     def description(self) -> str:
